@@ -180,7 +180,33 @@ ENTITY_DOCS = [
 ]
 
 
-def oracle_pipeline_text(l, r):
+# Namespace names are written into the script as they are ({uri}name, and the uri of insert-namespace); a comma in
+# one (legal in a URI: the tag: scheme of RFC 4151 has one in every name) is read as a field separator by DiffParser:
+# open known finding `namespace-uri-with-comma`, found in session 3 by a sub-agent writing seeded changes.
+TAGURI = "tag:example.org,2005:x"
+COMMA_URI_DOCS = [
+    ('<a xmlns:p="%s"><p:b/></a>' % TAGURI, '<a xmlns:p="%s"><p:c/></a>' % TAGURI),                  # rename
+    ('<a xmlns:p="%s"><p:b/></a>' % TAGURI, '<a xmlns:p="%s"><p:b p:k="1"/></a>' % TAGURI),          # insert-attribute
+    ('<a xmlns:p="%s"><p:b/></a>' % TAGURI, '<a xmlns:p="%s"><p:b/><p:b>x</p:b></a>' % TAGURI),      # insert
+    ('<a/>', '<a xmlns:p="%s"/>' % TAGURI),                                                           # insert-namespace
+    ('<a xmlns:p="%s"><b p:k="v"/></a>' % TAGURI, '<a xmlns:p="%s"><b p:j="v"/></a>' % TAGURI),      # rename-attribute
+    # not affected: the names do not reach the script
+    ('<a xmlns:p="%s"><p:b>1</p:b></a>' % TAGURI, '<a xmlns:p="%s"><p:b>2</p:b></a>' % TAGURI),
+    ('<a xmlns:p="%s"><p:b/><p:c/></a>' % TAGURI, '<a xmlns:p="%s"><p:c/><p:b/></a>' % TAGURI),
+]
+
+
+def comma_uri_key(l, r, why):
+    """finding key for the known class: some namespace URI of the documents holds a comma AND the failure is the parser
+    counting the fields of a line wrongly (anything else on such documents is reported)"""
+    from lxml import etree
+    uris = {u for x in (l, r) for e in etree.fromstring(x).iter() for u in (e.nsmap or {}).values()}
+    if any("," in u for u in uris) and "TypeError" in why and "positional argument" in why:
+        return "namespace-uri-with-comma"
+    return None
+
+
+def oracle_pipeline_text(l, r, what="documents with an internal DTD subset"):
     """the text-level pipeline on document STRINGS (declarations and all): xmlpatch(xmldiff(l, r), l) = r"""
     from xmldiff import main, formatting
     from lxml import etree
@@ -188,9 +214,9 @@ def oracle_pipeline_text(l, r):
         d = main.diff_texts(l, r, formatter=formatting.DiffFormatter(normalize=formatting.WS_NONE))
         out = main.patch_text(d, l)
         if gen.canon(etree.fromstring(out)) != gen.canon(etree.fromstring(r)):
-            return "patch_text(diff_texts(l, r), l) != r for documents with an internal DTD subset: %r" % out[:200]
+            return "patch_text(diff_texts(l, r), l) != r for %s: %r" % (what, out[:200])
     except Exception as ex:  # noqa
-        return "pipeline raised %r on documents with an internal DTD subset" % ex
+        return "pipeline raised %r on %s" % (ex, what)
     return None
 
 
@@ -327,6 +353,10 @@ def main(run):
         w = oracle_pipeline_text(l_, r_)
         if w:
             viols.append({"what": w, "replay": {"kind": "pipeline-text", "left": l_, "right": r_}})
+    for l_, r_ in COMMA_URI_DOCS:
+        w = oracle_pipeline_text(l_, r_, "documents whose namespace name contains a comma")
+        if w:
+            viols.append({"what": w, "replay": {"kind": "pipeline-text", "left": l_, "right": r_, "finding_key": comma_uri_key(l_, r_, w)}})
     npipe = 150 if quick else 2000
     for _ in range(npipe):
         if rng.random() < .25:     # tag and attribute names that look like JSON literals / action keywords
